@@ -12,7 +12,7 @@ def engine(ctx, modules=("contracts.report", "contracts.cli")):
     d.declare_licensing(e)
     d.declare_cli(e)
     d.declare_paths(e)
-    d.declare_project(e); d.declare_toml(e); d.declare_config(e); d.declare_effects(e); d.declare_annotate(e); d.declare_copyright(e)
+    d.declare_project(e); d.declare_toml(e); d.declare_config(e); d.declare_effects(e); d.declare_annotate(e); d.declare_copyright(e); d.declare_header(e); d.declare_header_sections(e)
     return e
 
 
